@@ -76,24 +76,24 @@ Section Termination.
   Qed.
 
   (* one expansion does not increase the potential beyond the weight of the re-pushable children *)
-  Lemma expand_potential : forall kids V path preds V',
-    expand E kids V path = Some (preds, V') ->
+  Lemma expand_potential : forall kids st path preds st',
+    expand E kids st path = Some (preds, st') ->
     (forall var c, In (var, c) kids -> skip var c = false -> In c univ) ->
-    W * unvis V' + qsum (pushed path preds) <= W * unvis V + wsum w path (filter (repush E path) kids) /\
+    W * unvis (fst st') + qsum (pushed path preds) <= W * unvis (fst st) + wsum w path (filter (repush E path) kids) /\
     (forall n, In n (map fst (pushed path preds)) -> In (ntype n) univ).
   Proof.
-    induction kids as [|[var c] rest IH]; intros V path preds V' H Hu; cbn in H.
+    induction kids as [|[var c] rest IH]; intros st path preds st' H Hu; cbn in H.
     - inversion H; subst; cbn. split; [lia | intros n []].
     - assert (Hu' : forall v2 c2, In (v2, c2) rest -> skip v2 c2 = false -> In c2 univ)
         by (intros v2 c2 Hin; apply Hu; right; exact Hin).
       cbn [filter repush]. destruct (skip var c) eqn:Hsk; cbn [negb andb].
       + exact (IH _ _ _ _ H Hu').
       + assert (Hc : In c univ) by (apply (Hu var c); [left; reflexivity | exact Hsk]).
-        destruct (revisit c (unwrap c) (seen_set E (unwrap c) V path) && can_be_cyclic E (unwrap c)) eqn:Hcut.
+        destruct (visitedb E c (unwrap c) var st path && can_be_cyclic E (unwrap c)) eqn:Hcut.
         * (* deferred: nothing pushed *)
-          assert (Hgen : forall r ps, expand E rest V path = Some (ps, V') -> ncyc r = true -> preds = r :: ps ->
-                    W * unvis V' + qsum (pushed path preds) <=
-                    W * unvis V + wsum w path (if negb (can_be_cyclic E (unwrap c)) || is_generic E (unwrap c) && negb (revisit c (unwrap c) path)
+          assert (Hgen : forall r ps, expand E rest st path = Some (ps, st') -> ncyc r = true -> preds = r :: ps ->
+                    W * unvis (fst st') + qsum (pushed path preds) <=
+                    W * unvis (fst st) + wsum w path (if negb (can_be_cyclic E (unwrap c)) || is_generic E (unwrap c) && negb (revisit c (unwrap c) path)
                                                then (var, c) :: filter (repush E path) rest else filter (repush E path) rest) /\
                     (forall n, In n (map fst (pushed path preds)) -> In (ntype n) univ)).
           { intros r ps Hrest Hrc Hp. subst preds. destruct (IH _ _ _ _ Hrest Hu') as [I1 I2].
@@ -102,38 +102,38 @@ Section Termination.
             - cbn [wsum fold_right snd]. etransitivity; [exact I1|]. apply Nat.add_le_mono_l. apply Nat.le_add_l.
             - exact I1. }
           destruct (is_generic E (unwrap c) || should_unwrap c).
-          -- destruct (expand E rest V path) as [[ps V1]|] eqn:Hrest; [|discriminate]. inversion H; subst.
+          -- destruct (expand E rest st path) as [[ps st1]|] eqn:Hrest; [|discriminate]. inversion H; subst.
              apply (Hgen (mkdefer c (unwrap c) var) ps); auto.
           -- destruct (mkref E c (unwrap c) var) as [r|] eqn:Hmk; [|discriminate].
-             destruct (expand E rest V path) as [[ps V1]|] eqn:Hrest; [|discriminate]. inversion H; subst.
+             destruct (expand E rest st path) as [[ps st1]|] eqn:Hrest; [|discriminate]. inversion H; subst.
              destruct (mkref_shape _ _ _ _ _ Hmk) as [Hrc _]. apply (Hgen r ps); auto.
         * (* pushed *)
-          destruct (expand E rest (c :: V) path) as [[ps V1]|] eqn:Hrest; [|discriminate]. inversion H; subst; clear H.
-          destruct (IH _ _ _ _ Hrest Hu') as [I1 I2].
+          destruct (expand E rest (push_st c (unwrap c) var st) path) as [[ps st1]|] eqn:Hrest; [|discriminate]. inversion H; subst; clear H.
+          destruct (IH _ _ _ _ Hrest Hu') as [I1 I2]. cbn [push_st fst] in I1.
           unfold pushed in *. cbn [filter mknode ncyc negb map qsum fold_right fst snd ntype]. split.
           -- destruct (negb (can_be_cyclic E (unwrap c)) || is_generic E (unwrap c) && negb (revisit c (unwrap c) path)) eqn:Hrp.
-             ++ cbn [wsum fold_right snd]. pose proof (unvis_cons_le c V).
-                assert (W * unvis (c :: V) <= W * unvis V) by (apply Nat.mul_le_mono_l; exact H).
+             ++ cbn [wsum fold_right snd]. pose proof (unvis_cons_le c (fst st)).
+                assert (W * unvis (c :: fst st) <= W * unvis (fst st)) by (apply Nat.mul_le_mono_l; exact H).
                 unfold qsum in I1. unfold wsum in I1. lia.
              ++ (* a first visit: the type is new to visited *)
                 apply orb_false_iff in Hrp. destruct Hrp as [Hcc Hg]. apply negb_false_iff in Hcc.
-                rewrite Hcc, andb_true_r in Hcut.
+                rewrite Hcc, andb_true_r in Hcut. unfold visitedb in Hcut. apply orb_false_iff in Hcut. destruct Hcut as [Hcut _].
                 assert (Hgen : is_generic E (unwrap c) = false).
                 { destruct (is_generic E (unwrap c)) eqn:Hig; [|reflexivity]. cbn in Hg. apply negb_false_iff in Hg.
                   unfold seen_set in Hcut. rewrite Hig in Hcut. congruence. }
                 unfold seen_set in Hcut. rewrite Hgen in Hcut. unfold revisit in Hcut. apply orb_false_iff in Hcut.
-                destruct Hcut as [Hm _]. pose proof (unvis_cons_lt c V Hc Hm) as Hlt.
+                destruct Hcut as [Hm _]. pose proof (unvis_cons_lt c (fst st) Hc Hm) as Hlt.
                 pose proof (weight_bound c (c :: path) Hc).
-                assert (H0 : W * S (unvis (c :: V)) <= W * unvis V) by (apply Nat.mul_le_mono_l; exact Hlt).
+                assert (H0 : W * S (unvis (c :: fst st)) <= W * unvis (fst st)) by (apply Nat.mul_le_mono_l; exact Hlt).
                 rewrite Nat.mul_succ_r in H0. unfold qsum in I1. unfold wsum in *. lia.
           -- intros n [Hn|Hn]; [subst n; exact Hc | apply I2; exact Hn].
   Qed.
 
-  Lemma bfs_fuel_enough : forall fuel q V,
+  Lemma bfs_fuel_enough : forall fuel q st,
     (forall n, In n (map fst q) -> In (ntype n) univ) ->
-    W * unvis V + qsum q <= fuel -> bfs fuel E q V <> OutOfFuel.
+    W * unvis (fst st) + qsum q <= fuel -> bfs fuel E q st <> OutOfFuel.
   Proof.
-    induction fuel as [|f IH]; intros q V Hq Hphi.
+    induction fuel as [|f IH]; intros q st Hq Hphi.
     - destruct q as [|[p path] rest]; cbn; [discriminate|].
       exfalso. assert (Hp : In (ntype p) univ) by (apply Hq; left; reflexivity).
       pose proof (weight_ok (ntype p) path Hp). cbn in Hphi. lia.
@@ -142,16 +142,16 @@ Section Termination.
       assert (Hrest : forall n, In n (map fst rest) -> In (ntype n) univ) by (intros n Hn; apply Hq; right; exact Hn).
       pose proof (weight_ok (ntype p) path Hp) as Hw. cbn [qsum fold_right fst snd] in Hphi.
       destruct (is_literal (unwrap (ntype p))).
-      + assert (Hne : bfs f E rest V <> OutOfFuel) by (apply IH; [exact Hrest | unfold qsum; lia]).
-        destruct (bfs f E rest V); congruence.
-      + destruct (expand E (level E (unwrap (ntype p))) V path) as [[preds V']|] eqn:Hex; [|discriminate].
+      + assert (Hne : bfs f E rest st <> OutOfFuel) by (apply IH; [exact Hrest | unfold qsum; lia]).
+        destruct (bfs f E rest st); congruence.
+      + destruct (expand E (level E (unwrap (ntype p))) st path) as [[preds st']|] eqn:Hex; [|discriminate].
         destruct (expand_potential _ _ _ _ _ Hex) as [I1 I2].
         { intros var c Hin Hsk. eapply closed; eauto. }
-        assert (Hne : bfs f E (rest ++ pushed path preds) V' <> OutOfFuel).
+        assert (Hne : bfs f E (rest ++ pushed path preds) st' <> OutOfFuel).
         { apply IH.
           - intros n Hn. rewrite map_app in Hn. apply in_app_or in Hn. destruct Hn as [Hn|Hn]; [apply Hrest | apply I2]; exact Hn.
           - rewrite qsum_app. unfold qsum in *. lia. }
-        destruct (bfs f E (rest ++ pushed path preds) V'); congruence.
+        destruct (bfs f E (rest ++ pushed path preds) st'); congruence.
   Qed.
 
   Theorem terminates : forall root, In root univ ->
@@ -159,7 +159,7 @@ Section Termination.
   Proof.
     intros root Hr fuel Hf. unfold type_graph. apply bfs_fuel_enough.
     - intros n [Hn|[]]; subst n; exact Hr.
-    - cbn. pose proof (unvis_le_univ [root; unwrap root]). pose proof (weight_bound root [root; unwrap root] Hr).
+    - cbn [fst qsum fold_right root_node ntype mknode snd]. pose proof (unvis_le_univ [root; unwrap root]). pose proof (weight_bound root [root; unwrap root] Hr).
       assert (W * unvis [root; unwrap root] <= W * List.length univ) by (apply Nat.mul_le_mono_l; exact H). lia.
   Qed.
 End Termination.
